@@ -261,6 +261,97 @@ def plug_random(r, T, wf, depth, kind, hidden=False):
     return tree, box["d"], box["p"], depth
 
 
+# ---------------------------------------------------------------- shared sub-objects
+
+def unshare(n):
+    """an equal tree in which every position holds its own node object (copy.deepcopy would keep the
+    sharing, so each occurrence is copied separately)"""
+    c = copy.copy(n)
+    c.children = [unshare(x) for x in n.children]
+    return c
+
+
+def shared_paths(tree):
+    """paths at which one and the same node object occurs more than once: [[path, path, ...], ...]"""
+    occ = {}
+    for p, n in gentree.all_nodes(tree):
+        occ.setdefault(id(n), []).append(list(p))
+    return sorted(v for v in occ.values() if len(v) > 1)
+
+
+SHARE_FRAMES = ["and", "or", "unk", "bool", "group", "boost", "plus", "not", "prohibit", "field", "infield"]
+
+
+def share_wrap(T, x, path):
+    W = T.Word
+    for f in path:
+        if f in ("and", "or", "unk", "bool"):
+            c = {"and": T.AndOperation, "or": T.OrOperation, "unk": T.UnknownOperation,
+                 "bool": T.BoolOperation}[f]
+            x = c(W("w1"), x) if f in ("and", "bool") else c(x, W("w2"))
+        elif f == "group":
+            x = T.Group(x)
+        elif f == "boost":
+            x = T.Boost(x, 2)
+        elif f in ("plus", "not", "prohibit"):
+            x = {"plus": T.Plus, "not": T.Not, "prohibit": T.Prohibit}[f](x)
+        elif f == "field":
+            x = T.SearchField("g", x)
+        else:
+            x = T.SearchField("other", T.FieldGroup(T.AndOperation(W("w5"), x)))
+    return x
+
+
+SHARE_KINDS = ["fieldgroup", "group", "not", "prohibit", "plain", "wfsub"] + sorted(DEFECT_MSG)
+
+
+def shared_tree(r, T, wf, kind, valid_first, path1, path2):
+    """a tree in which ONE node object sits at two positions.  For the parent-dependent constructs one
+    occurrence is well placed and the other is not; the other kinds are the same at both places."""
+    W = T.Word
+    if kind == "fieldgroup":
+        sh = T.FieldGroup(T.OrOperation(W("foo"), T.Phrase('"bar baz"')))
+        good, bad = T.SearchField("title", sh), sh
+    elif kind == "group":
+        sh = T.Group(T.OrOperation(W("foo"), W("bar")))
+        good, bad = sh, T.SearchField("title", sh)
+    elif kind in ("not", "prohibit"):
+        sh = (T.Not if kind == "not" else T.Prohibit)(W("b"))
+        good, bad = T.AndOperation(W("a"), sh), T.OrOperation(W("a"), sh)
+    elif kind == "plain":
+        sh = wf.word()
+        good = bad = sh
+    elif kind == "wfsub":
+        sh = wf.expr(2, T.AndOperation)
+        good = bad = sh
+    else:
+        sh = make_defect(r, T, wf, kind)
+        good = bad = sh
+    first, second = (good, bad) if valid_first else (bad, good)
+    top = r.choice([T.AndOperation, T.OrOperation, T.UnknownOperation, T.BoolOperation])
+    return top(share_wrap(T, first, path1), share_wrap(T, second, path2))
+
+
+def share_randomly(r, T, tree):
+    """make one node object of a generated tree occur at a second, disjoint position; returns True when
+    it could be done"""
+    nodes = [(p, n) for p, n in gentree.all_nodes(tree) if p]
+    r.shuffle(nodes)
+    for pa, a in nodes[:6]:
+        for pb, b in nodes:
+            k = min(len(pa), len(pb))
+            if a is b or pa[:k] == pb[:k]:
+                continue        # same position, or one inside the other
+            parent = tree
+            for i in pb[:-1]:
+                parent = parent.children[i]
+            cs = list(parent.children)
+            cs[pb[-1]] = a
+            parent.children = cs
+            return True
+    return False
+
+
 # ---------------------------------------------------------------- Gallina printers
 
 def g_kinds(ks):
@@ -269,6 +360,11 @@ def g_kinds(ks):
 
 def g_cls_opt(T, c):
     return "None" if c is None else "(Some C%s)" % c.__name__
+
+
+def plain(o):
+    """JSON-able, comparable form of an outcome of `observe`"""
+    return [o[0], repr(o[1]) if o[0] == "raised" else o[1]]
 
 
 def observe(check_mod, tree, zeal):
@@ -344,7 +440,26 @@ def correspond(model_ok, res):
         tree, d, p, nframes = plug_random(r, T, WF(r, T, z), r.randrange(0, 7), kind, hidden)
         cases.append((tree, z, (d, p, kind, hidden, nframes)))
 
+    # ---- ONE node object at two positions (the model and lib.g_item read each occurrence separately)
+    n_struct = 0
+    for kind in SHARE_KINDS:
+        for valid_first in (True, False):
+            for _ in range(5 * scale):
+                z = r.choice([0, 1, 2])
+                p1 = [r.choice(SHARE_FRAMES) for _ in range(r.choice([0, 0, 1, 2, 3]))]
+                p2 = [r.choice(SHARE_FRAMES) for _ in range(r.choice([0, 0, 1, 2, 3]))]
+                cases.append((shared_tree(r, T, WF(r, T, z), kind, valid_first, p1, p2), z, None))
+                n_struct += 1
+    n_rand_shared = 0
+    for _ in range(80 * scale):
+        t = g.tree(r.randrange(2, 5))
+        if share_randomly(r, T, t):
+            cases.append((t, r.choice([0, 1, 2]), None))
+            n_rand_shared += 1
+
     # ---- run the implementation, evaluate the oracle, serialise
+    reused = {}       # zeal -> one LuceneCheck instance used for every case of that zeal, in order
+    history = {}
     gcases, payloads = [], []
     dist = {"root_class": {}, "zeal": {}, "defect_kind": {}, "plug_frames": {}, "outcome": {}}
     seen = set()
@@ -360,6 +475,39 @@ def correspond(model_ok, res):
             continue
         wf_py = wellformed(T, tree, z)
         e, c = observe(check_mod, tree, z)
+
+        # -- oracle: sharing of node objects must not matter (equal tree, every position its own object)
+        sp = shared_paths(tree)
+        if sp:
+            dist["shared_objects"] = dist.get("shared_objects", 0) + 1
+            twin = unshare(tree)
+            assert not shared_paths(twin) and lib.g_item(twin) == before
+            e2, c2 = observe(check_mod, twin, z)
+            if plain(e) != plain(e2) or plain(c) != plain(c2):
+                res.failures.append((dict(payload, clause="an ill-formed construct is reported at any position "
+                                          "(the verdict must not depend on node objects being shared)",
+                                          recipe="build the tree below with fresh nodes, then put the node object "
+                                                 "of the first path of each group at the other paths of the group",
+                                          same_object_at=sp, shared=[plain(e), plain(c)],
+                                          unshared=[plain(e2), plain(c2)]), None))
+
+        # -- oracle: a checker instance that has been used before (rejecting trees through __call__, which
+        #    abandons the generator) answers as a fresh one
+        rc = reused.setdefault(z, check_mod.LuceneCheck(zeal=z))
+        hist = history.setdefault(z, [])
+        try:
+            rcall = ("done", rc(tree))
+        except Exception as ex:   # noqa
+            rcall = ("raised", ex)
+        try:
+            rerr = ("done", rc.errors(tree))
+        except Exception as ex:   # noqa
+            rerr = ("raised", ex)
+        if plain(rcall) != plain(c) or plain(rerr) != plain(e):
+            res.failures.append((dict(payload, clause="same answer from a checker instance used before",
+                                      history=["checker = LuceneCheck(zeal=%d)" % z] + hist[-6:],
+                                      reused=[plain(rerr), plain(rcall)], fresh=[plain(e), plain(c)]), None))
+        hist.append("checker(%s); checker.errors(<same>)" % desc[:300])
         after = lib.g_item(tree)
         dist["root_class"][type(tree).__name__] = dist["root_class"].get(type(tree).__name__, 0) + 1
         dist["zeal"][str(z)] = dist["zeal"].get(str(z), 0) + 1
@@ -415,9 +563,13 @@ def correspond(model_ok, res):
 
     res.cases = len(gcases)
     res.nontrivial = len(seen)
+    res.notes.append("%d structured + %d random trees with one node object at two positions; every case is also "
+                     "run on a per-zeal reused checker instance" % (n_struct, n_rand_shared))
     res.rule = ("fixed corpus x zeal {0,1,2,-1}; random trees of every item class (depth<=4, odd shapes); "
                 "random well-formed trees; one defect of each of the 8 kinds plugged under 0..6 context frames "
-                "(fields, groups, field groups, boosts, operations, prefixes). non-trivial = distinct "
+                "(fields, groups, field groups, boosts, operations, prefixes); trees with ONE node object at two "
+                "positions (parent-dependent constructs well placed first/second, every defect kind, random "
+                "sharing) compared with their unshared twin; reused checker instances. non-trivial = distinct "
                 "(zeal truthiness, tree) with more than one node or a non-empty verdict")
     res.samples = [p["tree"][:200] + " @zeal=%d" % p["zeal"] for p in payloads[len(corpus) * 4:][:8]]
     res.distribution = dist
@@ -487,10 +639,12 @@ SPEC = {
         "message kinds are recognised by the fixed prefix (suffix for the field-name message) of the "
         "format string",
         "value-based tree model: 'the tree is not modified' is checked by the harness (serialisation "
-        "before/after), not proved",
+        "before/after), not proved; a node object shared between positions is read as two equal sub-trees, "
+        "and the harness checks that the implementation agrees with that reading and with an unshared twin",
     ],
     "assumptions": [
-        "trees contain only luqum.tree classes (no user subclasses); parents=[] at the entry point",
+        "trees contain only luqum.tree classes (no user subclasses); parents=[] at the entry point; trees are "
+        "acyclic (a node object may occur at several disjoint positions)",
         "\\w and \\s are the generated Unicode classes of the running Python's re module (str patterns); the "
         "lemmas hold for any two predicates",
         "fuzzy degrees are finite Decimals (NaN / Infinity unmodelled); 'negative' means the sign bit, so "
